@@ -350,6 +350,27 @@ example : jsonLoads (jsonDumps (.obj [("b".toList, .arr [.int (-1), .bool true, 
     some (.obj [("a".toList, .obj []), ("b".toList, .arr [.int (-1), .bool true, .null, .str "x\"y\n".toList])]) := by
   rfl
 
+
+/-- **C15 (JSON text format is lossless).** The model of `json.dumps(v, sort_keys=True)` /
+    `json.loads` (TmVerif.Codec.Json — the printer and parser that the run compares with Python's
+    `json` on every generated value and on malformed text) round-trips EVERY value without floats
+    whose dictionaries have strictly increasing keys at every depth: all strings (escapes, control
+    characters, non-BMP characters as surrogate pairs), all integers, any nesting. -/
+theorem C15_json_model_roundtrip (v : JVal) (hc : canonB v = true) : jsonLoads (jsonDumps v) = some v :=
+  json_roundtrip v hc
+
+/-- **C15 (payload round trip, JSON hypothesis discharged).** With the JSON library as modelled,
+    only the UTF-8 law remains a hypothesis. -/
+theorem C15_payload_roundtrip_json {Y} (L : Libs Y) (hd : L.dumps = jsonDumps) (hl : L.loads = jsonLoads)
+    (hutf8 : ∀ s, L.utf8dec (L.utf8enc s) = some s)
+    (v : JVal) (hc : canonB v = true) (hcont : v.isContainer = true) (strict : Bool) :
+    getResult L strict (some (payload L (.val v))) = .json v :=
+  C15_payload_roundtrip L (fun v => canonB v = true)
+    (by intro v h; rw [hd, hl]; exact json_roundtrip v h) hutf8 v hc hcont strict
+
+example : canonB (.obj [("a".toList, .arr [.int (-1), .null, .str "x\"\n😀é".toList]), ("b".toList, .obj [])]) = true := by
+  decide +kernel
+
 /-! ## 5. admin objects as LDAP entries -/
 
 /-- The `_schema` tables extracted from `Application`, `CellAllocation` and `Partition` (main and
@@ -400,6 +421,16 @@ theorem C15_ldap_keyed (sch : Schema) (hwf : SchemaWF sch) (key pfx : Str) (hk :
         = some (sortRows (rows.map (normalise sch))) := by
   obtain ⟨E, h1, h2, _⟩ := keyed_roundtrip sch hwf key pfx hk hp objs rows hs hr A C hA hC hAok hCok
   exact ⟨E, h1, h2⟩
+
+
+/-- **C15 (LDAP `dict` fields need no hypothesis).** Every dictionary without floats and with
+    strictly increasing keys at every depth satisfies `DictOK` (by the proved JSON round trip). -/
+theorem C15_ldap_dict_ok (kvs : KVs) (hc : canonB (.obj kvs) = true) : DictOK kvs := dictOK_of_canon kvs hc
+
+/-- a partition with a nested `data` dictionary is well-formed (decided) -/
+example : ObjWF ExtCodec.partitionSchema
+    [(S "_id", .str (S "p1")), (S "data", .obj [(S "a", .arr [.int 1, .obj [(S "x", .null)]]), (S "b", .str (S "é"))])] :=
+  objWFb_sound _ _ (by decide +kernel)
 
 /-- **C15 (CellAllocation round trip).** `from_entry(_remove_empty(to_entry(obj)))` is the normal
     form of `obj` (flat fields normalised, assignments normalised and sorted, cpu/memory/disk/
